@@ -44,6 +44,53 @@ def conc(v):
     return isinstance(v, str)
 
 
+class JoinPiece(object):
+    """sep.join(items) where items = [(guard z3 Bool, element)], elements str / finite choice / abstract"""
+
+    def __init__(self, sep, items):
+        self.sep = sep
+        self.items = list(items)
+
+
+class SCat(SStr):
+    """
+    structured symbolic string: the concatenation of pieces, each piece a concrete str, a
+    finite choice of strs, an abstract string or a JoinPiece.  It is an SStr (it has a z3 term,
+    built lazily from the uninterpreted string functions) whose structure stays visible to
+    contracts and to the structural equality rule (L-join-inj).
+    """
+
+    __slots__ = ("parts", "_z")
+
+    def __init__(self, parts):
+        self.parts = parts
+        self._z = None
+
+    @property
+    def z(self):
+        if self._z is None:
+            terms = []
+            for p in self.parts:
+                if isinstance(p, JoinPiece):
+                    terms.append(f_join(str_z(p.sep), glist_term(p.items)))
+                else:
+                    terms.append(str_z(p))
+            acc = terms[-1]
+            for t in reversed(terms[:-1]):
+                acc = f_concat(t, acc)
+            self._z = z3.simplify(acc)
+        return self._z
+
+    def __repr__(self):
+        return "SCat(%d parts)" % len(self.parts)
+
+
+def _parts(v):
+    if isinstance(v, SCat):
+        return list(v.parts)
+    return [v]
+
+
 def concat(a, b):
     if conc(a) and conc(b):
         return a + b
@@ -51,23 +98,32 @@ def concat(a, b):
         return b
     if conc(b) and b == "":
         return a
-    return mk_str(f_concat(str_z(a), str_z(b)))
+    from .sym import FV
+
+    if isinstance(a, FV) and isinstance(b, FV) or (isinstance(a, FV) and conc(b)) or (conc(a) and isinstance(b, FV)):
+        from .sym import fv_apply
+
+        try:
+            if len(getattr(a, "values", [0])) * len(getattr(b, "values", [0])) <= 4096:
+                return fv_apply(lambda x, y: x + y, a, b)
+        except Exception:
+            pass
+    pa, pb = _parts(a), _parts(b)
+    if pa and pb and conc(pa[-1]) and conc(pb[0]):
+        pa = pa[:-1] + [pa[-1] + pb[0]]
+        pb = pb[1:]
+    parts = [p for p in pa + pb if not (conc(p) and p == "")]
+    if len(parts) == 1 and not isinstance(parts[0], JoinPiece):
+        return parts[0]
+    return SCat(parts)
 
 
 def concat_all(parts):
-    # right-nested so that a common literal prefix stays visible: a + (b + (c + ...))
-    # adjacent literals are folded first
-    folded = []
-    for p in parts:
-        if folded and conc(folded[-1]) and conc(p):
-            folded[-1] = folded[-1] + p
-        else:
-            folded.append(p)
-    if not folded:
+    if not parts:
         return ""
-    acc = folded[-1]
-    for p in reversed(folded[:-1]):
-        acc = concat(p, acc)
+    acc = parts[0]
+    for p in parts[1:]:
+        acc = concat(acc, p)
     return acc
 
 
@@ -224,15 +280,14 @@ def tail1_facts(s, sep):
 
 
 def join(sep, items):
-    """sep.join(items) for a Python list of concrete/abstract strings"""
+    """sep.join(items) for a Python list of concrete / finite-choice / abstract strings"""
     if not items:
         return ""
-    parts = []
-    for k, x in enumerate(items):
-        if k:
-            parts.append(sep)
-        parts.append(x)
-    return concat_all(parts)
+    if all(conc(x) for x in items) and conc(sep):
+        return sep.join(items)
+    if len(items) == 1:
+        return items[0]
+    return SCat([JoinPiece(sep, [(z3.BoolVal(True), x) for x in items])])
 
 
 # guarded lists: join is a fold of conditional snoc operations over an abstract list sort
@@ -253,7 +308,72 @@ def glist_term(items):
 
 
 def join_glist(sep, items):
-    return mk_str(f_join(str_z(sep), glist_term(items)))
+    return SCat([JoinPiece(sep, list(items))])
+
+
+def possible_values(x):
+    """finite set of concrete strings a piece element may take, or None if unbounded"""
+    from .sym import FV
+
+    if conc(x):
+        return {x}
+    if isinstance(x, FV) and all(isinstance(v, str) for v in x.values):
+        return set(x.values)
+    return None
+
+
+def structural_eq(a, b, eq_elem):
+    """
+    Equality of two structured strings by rule L-join-inj: two strings built as
+    <piece><piece>... with the same piece kinds are equal iff corresponding pieces are equal,
+    provided the split points are unambiguous.  Implemented for the shapes the library builds:
+    [prefix-choice] + [join of conditional elements]: equal iff prefixes are equal and, position
+    by position, the guards agree and guarded elements are equal.  Side conditions (checked on
+    the concrete leaf sets, else None is returned and the caller falls back to abstract
+    equality): elements are non-empty, contain no separator, the sets of possible elements at
+    different positions are pairwise disjoint, every prefix value ends with a character
+    sequence that no element/suffix can extend ambiguously (all prefix values have the same
+    length or are empty).
+    Returns a z3 Boolean or None.
+    """
+    pa, pb = _parts(a), _parts(b)
+    if len(pa) != len(pb):
+        return None
+    conj = []
+    for x, y in zip(pa, pb):
+        if isinstance(x, JoinPiece) != isinstance(y, JoinPiece):
+            return None
+        if isinstance(x, JoinPiece):
+            if x.sep != y.sep or not conc(x.sep) or len(x.items) != len(y.items):
+                return None
+            sets = []
+            for (g1, e1), (g2, e2) in zip(x.items, y.items):
+                s1, s2 = possible_values(e1), possible_values(e2)
+                if s1 is None or s2 is None:
+                    return None
+                u = s1 | s2
+                if any((v == "" or x.sep in v) for v in u):
+                    return None
+                sets.append(u)
+                conj.append(g1 == g2)
+                conj.append(z3.Implies(g1, eq_elem(e1, e2)))
+            for i in range(len(sets)):
+                for k in range(i + 1, len(sets)):
+                    if sets[i] & sets[k]:
+                        return None
+        else:
+            s1, s2 = possible_values(x), possible_values(y)
+            if s1 is None or s2 is None:
+                return None
+            lens = {len(v) for v in s1 | s2}
+            if len(lens) != 1:
+                return None
+            conj.append(eq_elem(x, y))
+    # a join piece must be last or followed by nothing ambiguous: only allow it as final piece
+    for k, x in enumerate(pa):
+        if isinstance(x, JoinPiece) and k != len(pa) - 1:
+            return None
+    return z3.And(*conj) if conj else z3.BoolVal(True)
 
 
 def fmt(template, args, kwargs, to_str):
